@@ -320,6 +320,8 @@ def plan_C13(q, seed):
     jobs = [rand_job("ELIDE", 100000 if q else 2000000, time_limit=35 if q else 500)]
     jobs += [rand_job("ELIDE", 30000 if q else 600000, objs=3, length=40, time_limit=15 if q else 200, label="rand-ELIDE-dense-e1")]
     jobs += [e2(rand_job("ELIDE", 10000 if q else 200000, time_limit=20 if q else 300))]
+    # forgotten unadopt combined with the handle-consuming APIs (the taken handle is unwrapped, made unique, ...)
+    jobs += [rand_job("ELIDE", 60000 if q else 1200000, time_limit=25 if q else 300, extra=["--consume-bias", "2"], label="rand-ELIDE-consume-e1")]
     return {
         "jobs": jobs,
         "rule": "random histories that are well-formed except that recorded handles are taken out of their owner without unadopt (then kept, dropped or re-stored), followed by further operations; premature-destruction and exactly-once/allocator rules armed, synchronous-collection rule disarmed for groups touched by a stale record (leaks are the permitted consequence). Non-trivial = at least one take left a stale record; distinct = distinct operation sequences",
@@ -345,16 +347,20 @@ def plan_C14(q, seed):
 def plan_C15(q, seed):
     if q:
         sizes = [("ring", 1000), ("ring", 10000), ("ring", 100000), ("chords", 1000), ("chords", 100000),
-                 ("selfmix", 1000), ("selfmix", 100000), ("clique", 100), ("clique", 300)]
+                 ("selfmix", 1000), ("selfmix", 100000), ("clique", 100), ("clique", 300),
+                 ("hub", 10000), ("hub", 40000), ("hub", 160000), ("chords", 25000), ("chords", 400000)]
         stacks = [128]
+        growth = [("hub", 40000, 160000), ("chords", 25000, 100000), ("chords", 100000, 400000), ("ring", 10000, 100000)]
     else:
         sizes = [(s, n) for s in ("ring", "chords", "selfmix") for n in (1000, 3000, 10000, 30000, 100000, 300000)]
         sizes += [("clique", n) for n in (50, 100, 200, 400, 600)]
+        sizes += [("hub", n) for n in (10000, 40000, 160000, 640000)] + [("chords", 75000), ("chords", 1200000)]
         stacks = [64, 128]
+        growth = [("hub", 40000, 160000), ("hub", 160000, 640000), ("chords", 75000, 300000), ("chords", 300000, 1200000), ("ring", 30000, 300000), ("selfmix", 30000, 300000)]
     return {
-        "jobs": [{"kind": "scale", "engine": "e1", "sizes": sizes, "stacks": stacks, "label": "scale-e1", "args": [], "lo": 0, "hi": 0, "seeds": [seed, seed + 1] if not q else [seed]},
+        "jobs": [{"kind": "scale", "engine": "e1", "sizes": sizes, "stacks": stacks, "label": "scale-e1", "args": [], "lo": 0, "hi": 0, "seeds": [seed, seed + 1] if not q else [seed], "growth": growth},
                  {"kind": "scale", "engine": "e3", "sizes": [("ring", 24), ("chords", 24), ("selfmix", 30), ("clique", 8)], "stacks": [128], "label": "scale-e3", "args": [], "lo": 0, "hi": 0, "seeds": [seed]}],
-        "rule": "one orphanable group of N objects (ring, ring + N/2 random chords, clique, ring with self-adoptions through a clone and through the same handle) is built by moving handles so that exactly one drop triggers exactly one trace, then collected on a thread with a 64/128 KiB stack in a child process; the child must complete, trace counters (H3) must satisfy expansions <= N, pops <= distinct adoption pairs + 1, entries scanned <= 2*pairs + same-handle records, all N members destroyed, destructor nesting depth must stay 1. 'Any size' is restated as this bounded scaling experiment; wall time is recorded as evidence only. Distinct = distinct (shape, N, stack, seed)",
+        "rule": "one orphanable group of N objects (ring, ring + N/2 random chords, clique, ring with self-adoptions through a clone and through the same handle) is built by moving handles so that exactly one drop triggers exactly one trace, then collected on a thread with a 64/128 KiB stack in a child process; the child must complete, trace counters (H3) must satisfy expansions <= N, pops <= distinct adoption pairs + 1, entries scanned <= 2*pairs + same-handle records, all N members destroyed, destructor nesting depth must stay 1; CPU time of the collecting thread must grow linearly between 4N and 16N (hub and chord shapes keep many objects pending at once; verdict only if the growth factor exceeds 3x linear AND the per-element cost exceeds 5 us, re-measured once). 'Any size' is restated as this bounded scaling experiment; wall time is recorded as evidence only. Distinct = distinct (shape, N, stack, seed)",
         "assumptions": ["bounded restatement of an unbounded claim: N up to 3*10^5 (clique: 600)", "hooks H3 count what the trace does; payload destructor measures nesting"],
     }
 
